@@ -24,6 +24,8 @@ ASSUMPTIONS = ["no int overflow in time arithmetic (deadlines within +-2^30 us o
                "malloc does not fail", "the instance is not destroyed and tickit_tick is not re-entered from inside a callback"]
 TRUSTED = ["model coq/LoopDefs.v hand-written after src/tickit.c (with fixes/C17-*.patch applied); specification coq/LoopSpec.v "
            "(priority queue keyed by (deadline, registration number), snapshot semantics of an iteration)",
+           "heap-level twin coq/LoopHeap.v (nodes at addresses, checked reads, alloc/free; proved fault- and leak-free, C17_heap_safe): "
+           "its verdict (FAULT / LEAK) is part of the model's observation and is compared with ASan / the harness's heap-growth check",
            "harness/loopharness.h: link-time replacements of gettimeofday and ppoll (virtual clock, scripted ppoll)"]
 
 DELTAS = [-1500, -1, 0, 1, 999, 1000, 1001, 2500]
